@@ -86,16 +86,26 @@ structure Pnft where
 
 def ownerText (c : AddrCodec) (o : Bytes) : Bytes := if o = [] then [] else c.enc o
 
-def toPnft (c : AddrCodec) (s : State) (queryDenom : Bytes) (n : Nft) : Pnft :=
+/-- `ownerId` is the token id the Go code passes to `GetOwner`: the requested id in `GetPNFT`, the stored
+`n.Id` in the two listings. -/
+def toPnft (c : AddrCodec) (s : State) (queryDenom ownerId : Bytes) (n : Nft) : Pnft :=
   { denomId := n.classId, id := n.id, name := n.name, description := n.description, uri := n.uri,
     uriHash := n.uriHash, data := n.data, creator := n.creator,
-    owner := ownerText c (getOwner s queryDenom n.id), createdAt := n.createdAt }
+    owner := ownerText c (getOwner s queryDenom ownerId), createdAt := n.createdAt }
 
 def getPNFT (c : AddrCodec) (s : State) (denomId id : Bytes) : Option Pnft :=
-  (s.nfts.get (nftKey denomId id)).map (toPnft c s denomId)
+  (s.nfts.get (nftKey denomId id)).map (toPnft c s denomId id)
 
 /-- `ValidateBasic` of the seven messages (re-run inside every handler). -/
 def validateBasic (c : AddrCodec) (m : PnftMsg) : Outcome Unit := pnftValidateBasic c.dec m
+
+def newClass (id name symbol description uri uriHash data creator : Bytes) : Class :=
+  { id := id, name := name, symbol := symbol, description := description, uri := uri, uriHash := uriHash,
+    owner := creator, data := data }
+
+def newNft (classId id name description uri uriHash data creator : Bytes) (now : Int) : Nft :=
+  { classId := classId, id := id, uri := uri, uriHash := uriHash, name := name, description := description,
+    creator := creator, createdAt := now, data := data }
 
 /-- Message server. `now` = `ctx.BlockTime()` in unix nanoseconds. -/
 def handle (c : AddrCodec) (now : Int) (s : State) (m : PnftMsg) : Outcome State := do
@@ -106,9 +116,7 @@ def handle (c : AddrCodec) (now : Int) (s : State) (m : PnftMsg) : Outcome State
   match m with
   | .createDenom id name symbol description uri uriHash data creator =>
     if hasClass s id then .err "pnft/1:class-exists" else
-    let cl : Class := { id := id, name := name, symbol := symbol, description := description, uri := uri,
-                        uriHash := uriHash, owner := creator, data := data }
-    .ok { s with classes := s.classes.set id cl }
+    .ok { s with classes := s.classes.set id (newClass id name symbol description uri uriHash data creator) }
   | .updateDenom id name symbol description uri uriHash data updater =>
     match s.classes.get id with
     | none => .err "pnft/2:not-found"
@@ -141,9 +149,7 @@ def handle (c : AddrCodec) (now : Int) (s : State) (m : PnftMsg) : Outcome State
       | none => .err "pnft/6:address"
       | some receiver =>
         if hasNFT s d.id id then .err "pnft/6:exists" else
-        let tok : Nft := { classId := d.id, id := id, uri := uri, uriHash := uriHash, name := name,
-                           description := description, creator := creator, createdAt := now, data := data }
-        let s1 := { s with nfts := s.nfts.set (nftKey d.id id) tok }
+        let s1 := { s with nfts := s.nfts.set (nftKey d.id id) (newNft d.id id name description uri uriHash data creator now) }
         let s2 := setOwner s1 d.id id receiver
         .ok { s2 with supply := s2.supply.set d.id (wrap64 (getSupply s2 d.id + 1)) }
   | .transferPNFT denomId id sender receiver =>
@@ -183,7 +189,7 @@ def queryDenomsByOwner (s : State) (owner : Bytes) : List Class :=
 
 /-- `Query/PNFTs`: iterate the NFT store under `classID ‖ 0x00`. -/
 def queryPNFTs (c : AddrCodec) (s : State) (denomId : Bytes) : List Pnft :=
-  (s.nfts.prefixView (denomId ++ [0x00])).map (fun e => toPnft c s denomId e.2)
+  (s.nfts.prefixView (denomId ++ [0x00])).map (fun e => toPnft c s denomId e.2.id e.2)
 
 /-- `Query/PNFTsByDenomOwner`: iterate the owner index, look every id up in the NFT store. -/
 def queryPNFTsByDenomOwner (c : AddrCodec) (s : State) (denomId owner : Bytes) : Outcome (List Pnft) :=
